@@ -152,7 +152,7 @@ def run_harness(driver, scripts_path, outdir, race=False, timeout=1800, extra_en
                 if done + 1 >= len(ids):
                     break
                 continue
-            raise MachineryError(f"harness driver {driver} failed (exit {p.returncode}):\n" + out[-4000:])
+            raise MachineryError(f"harness driver {driver} failed (exit {p.returncode}):\n" + _head_tail(out))
         break
     n = sum(1 for _ in open(bounds))
     nev = sum(1 for _ in open(trace))
@@ -338,11 +338,22 @@ def match_known(prop, inv, ev, known):
     return None
 
 
+def _head_tail(out, n=2500):
+    """the first lines that name a panic/fatal error plus head and tail of the output"""
+    key = [ln for ln in out.splitlines() if ln.startswith(("panic:", "fatal error:", "--- FAIL", "FAIL"))][:5]
+    if len(out) <= 2 * n:
+        return out
+    return "\n".join(key) + "\n" + out[:n] + "\n[...]\n" + out[-n:]
+
+
 def save_replay(prop, driver, trace_module, script_ops, inv, event):
     os.makedirs(os.path.join(VERIF, "replays"), exist_ok=True)
+    event = dict(event) if event else event
+    recorded = event.pop("_recorded", None) if event else None
     body = {"property": prop, "driver": driver, "trace_module": trace_module, "invariant": inv,
             "event": event, "ops": script_ops}
     h = hashlib.sha1(json.dumps(body, sort_keys=True).encode()).hexdigest()[:12]
+    body["recorded_trace"] = recorded
     path = os.path.join(VERIF, "replays", f"{prop}-{h}.json")
     with open(path, "w") as f:
         json.dump(body, f, separators=(",", ":"))
@@ -415,13 +426,13 @@ def run_family(fam, scratch, prefixes, allow_incomplete=False):
         if nt != cnt:
             raise MachineryError(f"harness produced {nt} traces for {cnt} scripts")
         r = _validate_one(fam.trace_module, trace, bounds, "3g", 1800, None)
-        return trace, nt, nev, r
+        return trace, bounds, nt, nev, r
 
     with ThreadPoolExecutor(max_workers=nchunks) as ex:
         results = list(ex.map(work, chunks))
     bad, other = [], []
     traces = events = states = trans = 0
-    for trace, nt, nev, r in results:
+    for trace, bounds, nt, nev, r in results:
         traces += nt
         events += nev
         states += r["distinct"]
@@ -445,6 +456,14 @@ def run_family(fam, scratch, prefixes, allow_incomplete=False):
             ev = json.loads(lines[ln - 1]) if 0 < ln <= len(lines) else None
             if ev is not None:
                 ev["_expected"] = exp
+                # the events the implementation produced for this script, up to the offending one: a replay that
+                # takes another schedule can then still be compared with what was judged
+                try:
+                    bl = [json.loads(x) for x in read_lines(bounds)]
+                    start = [b_["s"] for b_ in bl if b_["id"] == sid][0]
+                    ev["_recorded"] = [json.loads(x) for x in lines[start - 1:ln]][-400:]
+                except (OSError, ValueError, KeyError, IndexError):
+                    pass
             rec = (sid, ln, inv, ev, fam.scripts[sid - 1])
             if inv.startswith("MACHINERY") and allow_incomplete:
                 continue
